@@ -122,7 +122,9 @@ template <> bool BoxT<XercesDOMParser, true>::adopt() {
     DOMDocument* d = p.getDocument();
     if (!d) return false;
     Dump dd; dom_dump(d, dd, cfg.ns); dd.flush();
-    adopted.push_back({p.adoptDocument(), dd.joined()});
+    DOMDocument* a = p.adoptDocument();
+    for (auto& x : adopted) if (x.first == a) return true;   // adoptDocument() twice hands out the same document again: one owner, one release
+    adopted.push_back({a, dd.joined()});
     return true;
 }
 
